@@ -331,6 +331,19 @@ fn too_complex(line: &str) -> bool {
             '"' => in_string = true,
             ';' => break,
             '/' if previous == '/' => break,
+            // a block comment: skip to its end (the '/' that opened it was counted, drop it again)
+            '*' if previous == '/' => {
+                operators -= 1;
+                let mut last = ' ';
+                for c in chars.by_ref() {
+                    if last == '*' && c == '/' {
+                        break;
+                    }
+                    last = c;
+                }
+                previous = ' ';
+                continue;
+            }
             '(' | '+' | '-' | '*' | '/' | '%' | '!' | '~' | '<' | '>' | '&' | '|' | '^' | '=' => {
                 operators += 1
             }
